@@ -13,7 +13,9 @@ import (
 type Mutator struct {
 	Seed uint64
 	Ent  string
-	n    uint64
+	// Fixed: values the caller pins instead of having them drawn (by name).
+	Fixed map[string]string
+	n     uint64
 }
 
 func (m *Mutator) next(kind string) uint64 {
